@@ -34,7 +34,7 @@ impl mpsc::Sender<()> {
     #[verifier::external_body]
     pub fn send(&self, t: (), Tracked(g): Tracked<&mut G>) -> (r: ::std::result::Result<(), mpsc::SendError<()>>)
         requires
-            old(g).ready_q.len() < 1,          // #send_never_blocks [C06,C14,C11]
+            old(g).ready_q.len() < 1,          // #send_never_blocks [C06,C14,C11,C09,C07,C02]
         ensures *final(g) == (G { ready_q: old(g).ready_q.push(t), ever_ready_sent: true, ..*old(g) }),
     { unimplemented!() }
 }
@@ -42,7 +42,7 @@ impl mpsc::Sender<messages::HtlcAcceptedResponse> {
     #[verifier::external_body]
     pub fn send(&self, t: messages::HtlcAcceptedResponse, Tracked(g): Tracked<&mut G>) -> (r: ::std::result::Result<(), mpsc::SendError<messages::HtlcAcceptedResponse>>)
         requires
-            old(g).fail_q.len() < 1,           // #send_never_blocks [C06,C14,C11]
+            old(g).fail_q.len() < 1,           // #send_never_blocks [C06,C14,C11,C09,C07,C02]
             t is Fail,                              // #fail_channel_carries_only_fail [C02]
         ensures *final(g) == (G { fail_q: old(g).fail_q.push(t), ..*old(g) }),
     { unimplemented!() }
